@@ -330,7 +330,9 @@ func (en *DefaultEngine) runFirst(ctx context.Context) (bool, error) {
 	en.ca.Push()
 	rs := resource.NewMenuResource()
 	rs.AddLocalFunc("_first", en.first)
+	_, idx := en.st.Where()
 	en.st.Down("_first")
+	defer func() { en.st.SizeIdx = idx }()
 	defer en.ca.Pop()
 	defer en.st.Up()
 	defer en.st.ResetFlag(state.FLAG_TERMINATE)
